@@ -90,6 +90,11 @@ func c04Jobs(tier string) []string {
 	// be applied to the newer acknowledgement number
 	add("or=w,devs=z,mss=100,ws=-1,pwnd=300,pfix=1,w=500,b=1", 1)
 	add("or=sw,devs=zkhl,mss=100,ws=2,pwnd=1000,pfix=1,w=300+900,b=1", 2)
+	// a scaling peer that truncates its window field: with its buffer full and an ACK covering an
+	// amount that is not a multiple of the scale unit, the advertised edge retreats a few bytes to
+	// the left of SND.NXT while unsent data is queued (RFC 7323 2.4); nothing new may be sent
+	add("or=w,devs=kh,mss=1001,ws=3,pwnd=4004,pfix=1,wfloor=1,w=8008,b=1", 1)
+	add("or=w,devs=kwhl,mss=100,ws=2,pwnd=403,pfix=1,wfloor=1,rtt=50,w=9x100,b=1", 2)
 	// our handshake ACK is lost and the peer repeats its SYN-ACK after the connection is up: the
 	// window field of a SYN is never scaled
 	// a receive buffer that is not a multiple of the window-scale unit: the peer fills the scaled
